@@ -13,6 +13,7 @@ import (
 	"github.com/256dpi/lungo"
 
 	"verif/internal/par"
+	"verif/internal/refmodel"
 	"verif/internal/world"
 )
 
@@ -627,7 +628,7 @@ func init() {
 		// pass 1: count slots per call
 		type counts struct{ args, results int }
 		cnt := make([]counts, len(calls))
-		var argPreserved, readOnly int64
+		var argPreserved, readOnly, streamedSlots int64
 		for ci, cl := range calls {
 			w := world.New()
 			c17Setup(w)
@@ -703,6 +704,56 @@ func init() {
 				r.Violation("aliasing-later-write:"+kind+":"+c17Class(cl.name, sl.path), fmt.Sprintf("%s: after overwriting %s slot %s a later DeleteMany fails: %v", cl.name, kind, sl.path, err), rep)
 			}
 		})
+		// an argument of a call that returns a handle: the metadata given to OpenUploadStream belongs to the caller again as
+		// soon as the call has returned, whatever is done with the stream afterwards (every slot overwritten between the
+		// open and the Close)
+		{
+			mk := func() []interface{} {
+				return []interface{}{bson.M{"owner": "alice", "tags": bson.A{"a", bD("k", bson.A{int32(1)})}, "raw": []byte{1, 2}}}
+			}
+			want := ""
+			nslots := len(c17Slots(mk(), "args"))
+			for slot := -1; slot < nslots; slot++ {
+				w := world.New()
+				b := lungo.NewBucket(w.Client.Database("d"))
+				args := mk()
+				st, err := b.OpenUploadStreamWithID(w.Ctx, "file", "name", options.GridFSUpload().SetMetadata(args[0]).SetChunkSizeBytes(2))
+				if err != nil {
+					r.Broken("open upload stream: %v", err)
+					w.Close()
+					break
+				}
+				_, _ = st.Write([]byte{1, 2, 3})
+				path := "(none)"
+				if slot >= 0 {
+					sl := c17Slots(args, "args")[slot]
+					path = sl.path
+					sl.mutate()
+				}
+				_, _ = st.Write([]byte{4})
+				if err := st.Close(); err != nil {
+					r.Broken("close upload stream: %v", err)
+				}
+				var files []bson.D
+				if cur, err := b.Find(w.Ctx, bD()); err == nil {
+					_ = cur.All(w.Ctx, &files)
+				}
+				got := ""
+				if len(files) == 1 {
+					got = J(canonSorted(refmodel.GetPath(files[0], "metadata")))
+				}
+				if slot < 0 {
+					want = got
+				} else if got != want {
+					r.Violation("aliasing:argument:OpenUploadStream:metadata", fmt.Sprintf("OpenUploadStreamWithID(metadata): the caller overwrote %s after the call had returned and before the stream was closed; the stored file carries metadata %s instead of %s", path, got, want), map[string]interface{}{"call": "OpenUploadStreamWithID", "mutated": path})
+					w.Close()
+					break
+				}
+				streamedSlots++
+				w.Close()
+			}
+		}
+		r.Set("slots_mutated_between_open_and_close_of_an_upload", streamedSlots)
 		var totalArgs, totalRes int64
 		var names []interface{}
 		for ci, k := range cnt {
